@@ -9,5 +9,5 @@ import dtlsconfig "github.com/pion/dtls/v3/internal/config"
 func ZZC03VerifyServerIdentity(cfg *dtlsconfig.HandshakeConfig, certs [][]byte) error {
 	f := protectedHandshakeFlight{cfg: cfg, peerCertificates: certs}
 
-	return f.verifyServerIdentity()
+	return f.verifyPeerIdentity(false) // the peer is the server: this is the path processCertificateVerify takes on a client
 }
